@@ -48,6 +48,10 @@ pub enum Op {
     Parse { w: Workload },
     /// `Stream::verify` + `count_bits` of a stream made elsewhere
     Verify { w: Workload },
+    /// a frame header built by hand through the public constructor (fixed blocking: frame number;
+    /// variable blocking: start sample) and written to a `ByteSink` - what a tool that re-serialises
+    /// foreign streams does between encodes
+    WriteHeader { w: Workload, variable: bool, offset: u64 },
 }
 
 impl Op {
@@ -59,11 +63,12 @@ impl Op {
             Self::WriteFailing { .. } => "WriteFailing",
             Self::Parse { .. } => "Parse",
             Self::Verify { .. } => "Verify",
+            Self::WriteHeader { .. } => "WriteHeader",
         }
     }
     pub fn w(&self) -> &Workload {
         match self {
-            Self::EncStream { w } | Self::EncFrame { w, .. } | Self::Write { w, .. } | Self::WriteFailing { w, .. } | Self::Parse { w } | Self::Verify { w } => w,
+            Self::EncStream { w } | Self::EncFrame { w, .. } | Self::Write { w, .. } | Self::WriteFailing { w, .. } | Self::Parse { w } | Self::Verify { w } | Self::WriteHeader { w, .. } => w,
         }
     }
 }
@@ -134,7 +139,7 @@ fn encode_plain(w: &Workload) -> Result<Stream, String> {
 
 fn prepare(op: &Op) -> Prepared {
     match op {
-        Op::EncStream { .. } | Op::EncFrame { .. } => Prepared::Nothing,
+        Op::EncStream { .. } | Op::EncFrame { .. } | Op::WriteHeader { .. } => Prepared::Nothing,
         Op::Write { w, .. } | Op::WriteFailing { w, .. } | Op::Verify { w } => match encode_plain(w) {
             Ok(s) => Prepared::Stream(s),
             Err(e) => Prepared::Failed(e),
@@ -246,6 +251,20 @@ fn perform_inner(op: &Op, prep: Prepared) -> OpResult {
             out.extend_from_slice(&(accepted as u64).to_le_bytes());
             out.extend_from_slice(&sink.0.model.to_bytes());
             OpResult::Bytes(out)
+        }
+        (Op::WriteHeader { w, variable, offset }, _) => {
+            use flacenc::component::{ChannelAssignment, FrameHeader, FrameOffset};
+            let off = if *variable { FrameOffset::StartSample(*offset) } else { FrameOffset::Frame((*offset).min(u64::from(u32::MAX >> 1)) as u32) };
+            match FrameHeader::new(w.block, ChannelAssignment::Independent(w.channels as u8), w.bits, w.rate, off) {
+                Err(e) => OpResult::Err(format!("{e}")),
+                Ok(h) => {
+                    let mut sink = ByteSink::new();
+                    match h.write(&mut sink) {
+                        Ok(()) => OpResult::Bytes(sink.into_inner()),
+                        Err(e) => OpResult::Err(format!("write: {e}")),
+                    }
+                }
+            }
         }
         (Op::Parse { .. }, Prepared::Bytes(b)) => match nomshim::parse_stream(&b) {
             None => OpResult::Err("parser rejected the stream".into()),
@@ -471,6 +490,11 @@ fn gen_op(r: &mut Rng, w: Workload) -> Op {
             sticky: r.chance(0.5),
         },
         10 => Op::Parse { w },
+        _ if r.chance(0.5) => Op::WriteHeader {
+            w,
+            variable: r.chance(0.6),
+            offset: *r.pick(&[0u64, 1, 127, 128, 123_456, (1 << 31) - 1, (1 << 35) + 7]),
+        },
         _ => Op::Verify { w },
     }
 }
